@@ -584,9 +584,9 @@ pub fn run(tier: Tier, replay: Option<Value>) -> i32 {
     check_random_pairs(&run, tier.pick(300_000, 3_000_000));
     super::alongside(&run, "the many-hunks listing", || many_hunks(&run), || check_emitters(&run, tier.pick(400, 6000)));
     run.finish(
-        "validity: every string over a 13-component alphabet (incl. '', '.', '..', NUL, bytes below and above '/') up to the stated depth, with and without leading/trailing slash; order: all pairs and triples of valid paths over two alphabets (exhaustive) + random longer paths; emitters: generated trees (a quarter of them with extra names that are not UTF-8: two Latin-1 names differing in one byte) walked, backed up with small hunks, decoded independently and listed; for every second tree two or three further backups are killed before a write (with even odds before the same write as the previous one) and every version, now stitched from up to four indexes, is listed again; one tree of 10 040 files is backed up with one entry per hunk (two index subdirectories) and its index and listing checked the same way. Distinct non-trivial = distinct unordered pairs of different paths compared + distinct generated trees.",
+        "validity: every string over a 13-component alphabet (incl. '', '.', '..', NUL, bytes below and above '/') up to the stated depth, with and without leading/trailing slash; order: all pairs and triples of valid paths over two alphabets (exhaustive) + random longer paths; emitters: generated trees (a quarter of them with extra names that are not UTF-8: two Latin-1 names differing in one byte) walked, backed up with small hunks, decoded independently and listed; for every second tree two or three further backups are killed before a write (with even odds before the same write as the previous one) and every version, now stitched from up to four indexes, is listed again; for the other half of the trees every write of a first backup is refused once (a fresh archive per write, three error kinds) and the hunks that backup wrote and its listing are checked the same way; one tree of 10 040 files is backed up with one entry per hunk (two index subdirectories) and its index and listing checked the same way. Distinct non-trivial = distinct unordered pairs of different paths compared + distinct generated trees.",
         &["the documented order is as restated in oracle::apath_key (doc/format.md)", "snap/serde_json decode written hunks correctly"],
         Some(true),
-        &[("pairs_compared", 1000), ("triples_checked", 1000), ("validity_strings_checked", 1000), ("source_walks", 10), ("hunk_entries_decoded", 50), ("stitched_listings_checked", 50), ("listings_of_more_than_10000_hunks_checked", 1)],
+        &[("pairs_compared", 1000), ("triples_checked", 1000), ("validity_strings_checked", 1000), ("source_walks", 10), ("hunk_entries_decoded", 50), ("stitched_listings_checked", 50), ("backups_with_one_refused_write", 200), ("listings_of_more_than_10000_hunks_checked", 1)],
     )
 }
